@@ -518,6 +518,20 @@ func c18fixSigningTime(der []byte, f *c18fix) []byte {
 }
 
 // c18toBER re-encodes DER with every constructed element in indefinite-length form
+// c18overlap: k levels of `tag 02 | tag LL` where the inner header claims everything that follows, i.e. far
+// more than the two bytes its parent declares; innermost an empty OCTET STRING.
+func c18overlap(k int, tag byte) []byte {
+	b := []byte{0x04, 0x00}
+	for i := 0; i < k; i++ {
+		if len(b) > 127 {
+			b = append(append([]byte{tag, 0x02, tag}, c18derLen(len(b))...), b...)
+		} else {
+			b = append([]byte{tag, 0x02, tag, byte(len(b))}, b...)
+		}
+	}
+	return b
+}
+
 func c18toBER(d []byte) []byte {
 	var out []byte
 	for off := 0; off < len(d); {
@@ -915,6 +929,19 @@ func genC18(r *rng, tier string, emit func(string)) {
 				g.raw(dec, wide, extraOf[dec])
 				g.raw(dec, append(wide, 0, 0), extraOf[dec])
 			}
+		}
+		if ber {
+			// children that claim to run past the end of their definite-length parent: before the repair
+			// (x509/ber.go "extends beyond its parent") each level re-read the tail, 2^k objects for 4k bytes
+			for _, k := range []int{3, 8, 16, 22, 25, 30} {
+				g.raw(dec, c18overlap(k, 0x30), extraOf[dec])
+				g.raw(dec, c18overlap(k, 0xa0), extraOf[dec])
+			}
+			// a very long run of members inside one indefinite-length element: the end-of-contents test after
+			// each member must look at two bytes, not search the rest of the input
+			long := append([]byte{0x30, 0x80}, bytes.Repeat([]byte{0x04, 0x01, 0x01}, 400000)...)
+			g.raw(dec, long, extraOf[dec])
+			g.raw(dec, append(long, 0, 0), extraOf[dec])
 		}
 	}
 
